@@ -779,3 +779,11 @@ def ml_variant(src):
                 return src[:t.end[1]] + '\n' + src[t.end[1]:].lstrip(' ')
         seen = True
     return None
+
+
+def trivia_variant(src):
+    """the same source with something OUTSIDE the node's own location: a leading comment line, a trailing line comment and a
+    trailing comment line (what a node cut out of a file, or written by hand, carries around)"""
+    if not src.strip():
+        return None
+    return '# pre\n' + src + '  # line\n# post'
